@@ -24,7 +24,7 @@ type alphLine struct {
 	Real  []int  `json:"real"`
 }
 
-var alphaPatterns = []string{"binary-mask", "2-4-levels", "5-16-levels", "17-256-levels", "gradient", "noise", "single-pixel-corner", "last-column", "last-row", "first-pixel", "fully-transparent", "opaque", "smooth-noisy-columns"}
+var alphaPatterns = []string{"binary-mask", "2-4-levels", "5-16-levels", "17-256-levels", "gradient", "noise", "single-pixel-corner", "last-column", "last-row", "first-pixel", "fully-transparent", "opaque", "smooth-noisy-columns", "cone", "soft-box"}
 
 func alphaPicture(rng *rand.Rand, w, h int, pattern string, typ string) (image.Image, []int) {
 	img := noiseNRGBA(rng, w, h, 0)
@@ -78,6 +78,33 @@ func alphaPicture(rng *rand.Rand, w, h int, pattern string, typ string) (image.I
 				}
 			case "fully-transparent":
 				a = 0
+			case "cone": // a soft round spot on a fully transparent background (two-dimensional smooth alpha: the
+				// gradient predictor wins, and on the lower right rim left + above - above-left is negative)
+				dx, dy := 2*x-w, 2*y-h
+				d := dx*dx + dy*dy
+				r := w * w
+				if h*h < r {
+					r = h * h
+				}
+				a = 255 - d*300/(r+1)
+				if a < 0 {
+					a = 0
+				}
+			case "soft-box": // an opaque box with a two-pixel feathered edge on a transparent background
+				m := x
+				for _, v := range []int{y, w - 1 - x, h - 1 - y} {
+					if v < m {
+						m = v
+					}
+				}
+				m -= 2
+				a = m * 100
+				if a < 0 {
+					a = 0
+				}
+				if a > 255 {
+					a = 255
+				}
 			case "smooth-noisy-columns": // even columns close to their left neighbour, many distinct values
 				if x%2 == 0 && x > 0 {
 					a = plane[y*w+x-1] + rng.Intn(3) - 1
